@@ -278,6 +278,11 @@ func TestC18(t *testing.T) {
 			}
 		})
 		c.rec.Require("mode_" + m.name)
+		// multi-byte characters in front of backslash runs (2-, 3- and 4-byte UTF-8, a lone high byte)
+		alphaU := []string{d, "\\", "\xc3\xa9", "\xf0\x9f\x98\x80", "\xe2\x82\xac", "\xe9", "a"}
+		Lu := pick(5, 6)
+		p = c.rec.NewPart("quote_utf8_"+m.name, fmt.Sprintf("every body of length 0..%d over {delimiter, backslash, 2-/4-/3-byte UTF-8 characters, lone 0xE9, a}", Lu), false, true, "")
+		c.EnumSeq(p, alphaU, "", 0, Lu, func(w *Worker, s string) { w.Judge(ev.Case{Kind: "quote", N: k, In: s}) })
 	}
 
 	// q-quotes: all 223 delimiter bytes
@@ -312,7 +317,7 @@ func TestC18(t *testing.T) {
 	}
 
 	p = c.rec.NewPart("rapid_long_bodies", "rapid: mode x body of 0..60 pieces from {delimiter, other quote, backslash, letters, space, escaped/doubled delimiter} with optional tail repeat; q-strings and dollar strings likewise", true, false, "")
-	c.Rapid(p, 8, pick(20000, 600000), func(rt *rapid.T, sh int) ev.Case {
+	c.Rapid(p, 8, pick(80000, 900000), func(rt *rapid.T, sh int) ev.Case {
 		switch rapid.IntRange(0, 3).Draw(rt, "kind") {
 		case 0:
 			b := rapid.IntRange(33, 255).Draw(rt, "delim")
